@@ -152,6 +152,10 @@ def c05(chk, tier):
     replay_curves(chk, "MCCurves rising 2-3 pieces", C("{2, 3}", "{3, 4}", "{1, 2}", "{2, 5}", "DirUp"), what, invs)
     if not q:
         replay_curves(chk, "MCCurves 4 pieces", C("{4}", "{3, 4}", "{1, 2}", "{1, 3}"), what, invs)
+    # B: the tables written by the real rise / recession (synthetic workflows and field data):
+    # TLC checks stationarity in fixed point (TraceStationary.tla)
+    from . import prov_checks as PV
+    PV.stationarity_on_tables(chk, tier)
 
 
 def c08(chk, tier):
